@@ -411,8 +411,24 @@ func (w *World) pkgFuncs() []*ssa.Function {
 	prog, sp := w.ssa()
 	var out []*ssa.Function
 	for fn := range ssautil.AllFunctions(prog) {
-		if fn.Blocks == nil || fn.Synthetic != "" {
+		if fn.Blocks == nil {
 			continue
+		}
+		if fn.Synthetic != "" {
+			// instantiations of the package's own generic functions are its code too (and the
+			// function literals inside them); every other synthetic function (wrappers, thunks) is not
+			root := fn
+			for root.Parent() != nil {
+				root = root.Parent()
+			}
+			if o := root.Origin(); o == nil || o == root || o.Package() != sp || len(root.TypeArgs()) == 0 {
+				continue
+			}
+			out = append(out, fn)
+			continue
+		}
+		if fn.TypeParams() != nil && fn.TypeParams().Len() > 0 && len(fn.TypeArgs()) == 0 {
+			continue // the generic template itself: its instantiations are analysed
 		}
 		if fn.Package() == sp {
 			out = append(out, fn)
@@ -573,7 +589,34 @@ func (w *World) parseReachable() map[*ssa.Function]bool {
 // inPkg reports whether the SSA function belongs to the twig package.
 func (w *World) inPkg(fn *ssa.Function) bool {
 	_, sp := w.ssa()
-	return fn != nil && fn.Package() == sp
+	if fn == nil {
+		return false
+	}
+	if fn.Package() == sp {
+		return true
+	}
+	if o := fn.Origin(); o != nil && o != fn {
+		return o.Package() == sp
+	}
+	return false
+}
+
+// isTwigFn: the function belongs to the analysed package — declared there, or an instantiation
+// of one of its generic functions.
+func isTwigFn(fn *ssa.Function) bool {
+	if fn == nil {
+		return false
+	}
+	if fn.Pkg != nil {
+		return fn.Pkg.Pkg.Path() == twigPath
+	}
+	if o := fn.Origin(); o != nil && o != fn && o.Pkg != nil {
+		return o.Pkg.Pkg.Path() == twigPath
+	}
+	if p := fn.Parent(); p != nil {
+		return isTwigFn(p)
+	}
+	return false
 }
 
 // pathTo returns one call path root -> ... -> target (names), for reports.
